@@ -184,6 +184,12 @@ func runCheck(id, tier string, rest []string) int {
 	plan.Cfg.Debug = *debug
 	plan.Cfg.Trace = *trace
 	plan.Cfg.RepoPrefix = repoMod
+	if plan.Cfg.MaxHarnessSeconds == 0 {
+		plan.Cfg.MaxHarnessSeconds = 1500
+		if tier == "thorough" {
+			plan.Cfg.MaxHarnessSeconds = 4 * 3600
+		}
+	}
 	if tier == "thorough" {
 		plan.Cfg.CrossCmd = "z3" // 4.8.12 re-decides what 5.1 proved in one-shot mode
 	}
